@@ -111,6 +111,14 @@ def _impl(tier, seed, search):
             lp = Plucker.PQ(P + off, Q + off)
             ok2, c = L.noraise('isparallel', lambda: (l.isparallel(lp), l | lp), dict(inp, offset=off), 'isparallel')
             if ok2 and sc <= 3 and np.linalg.norm(d) <= 3: L.check('isparallel', bool(c[0]) and bool(c[1]), dict(inp, offset=off), 'parallel lines are not reported parallel (small data)')
+            # the parallel line with its direction rescaled (also reversed): same geometric line, same distance, both orders
+            for kd in (float(g.uniform(0.2, 5.0)), -float(g.uniform(0.2, 5.0))):
+                lk = Plucker.PointDir(P + off, d * kd)
+                for la, lb, tag in ((l, lk, 'ab'), (lk, l, 'ba')):
+                    ok3, c3 = L.noraise('distance-parallel-scaled', lambda: la.distance(lb), dict(inp, offset=off, k=kd), 'distance between parallel lines (rescaled direction)')
+                    if ok3 and sc <= 3 and np.linalg.norm(d) <= 3:
+                        L.close('distance-parallel-scaled', float(np.linalg.norm(c3)) if np.ndim(c3) else float(c3), dist_to_line(P + off, P, d), TOL, sc, dict(inp, offset=off, k=kd),
+                                what='distance between parallel lines depends on the scaling of a direction vector', sig='distance-parallel:scaled')
             ok2, c = L.noraise('distance-parallel', lambda: l.distance(lp), dict(inp, offset=off), 'distance between parallel lines', sig='distance-parallel:raises')
             if ok2 and sc <= 3 and np.linalg.norm(d) <= 3: L.close('distance-parallel', float(np.linalg.norm(c)) if np.ndim(c) else float(c), dist_to_line(P + off, P, d), TOL, sc, dict(inp, offset=off))
         # general (skew) pair
